@@ -265,8 +265,18 @@ func cacheRandom(args []string) int {
 			s.NLP, s.Fuzzy, s.AllPlat = r.Intn(2) == 0, r.Intn(2) == 0, r.Intn(2) == 0
 			reqs = append(reqs, request{qs[r.Intn(nq)], s.options()})
 		}
+		// one option value the caller keeps and edits in place between searches (the platform list and the boost map are
+		// the same objects every time)
+		shared := database.SearchOptions{Limit: 5, Platforms: []string{"linux"}, ContextBoosts: map[string]float64{"frobnicate": 2, "widget": 1.3}}
 		for i := 0; i < *length; i++ {
 			switch x := r.Intn(100); {
+			case x < 14:
+				if r.Intn(2) == 0 {
+					shared.Platforms[0] = []string{"linux", "windows", "macos"}[r.Intn(3)]
+				} else {
+					shared.ContextBoosts["frobnicate"] = []float64{1.5, 2, 3}[r.Intn(3)]
+				}
+				d.search(qs[0], shared, r.Intn(3) == 0)
 			case x < 70 && len(reqs) > 0:
 				rq := reqs[r.Intn(len(reqs))]
 				d.search(rq.q, rq.o, r.Intn(3) == 0)
